@@ -32,16 +32,14 @@ impl MmapMut {
     fn flush_async(&self) -> std::io::Result<()> {
         panic!()
     }
-
-    fn copy_from_slice(&self, _: &[u8]) {
-        panic!()
-    }
 }
 
 pub struct Writer {
     cache: PathBuf,
     builder: IntegrityOpts,
     mmap: Option<MmapMut>,
+    // Number of bytes stored through `mmap` so far.
+    mmap_pos: usize,
     tmpfile: NamedTempFile,
 }
 
@@ -72,10 +70,17 @@ impl Writer {
             builder: IntegrityOpts::new().algorithm(algo),
             tmpfile,
             mmap,
+            mmap_pos: 0,
         })
     }
 
-    pub fn close(self) -> Result<Integrity> {
+    pub fn close(mut self) -> Result<Integrity> {
+        finish_mmap(&mut self.mmap, &mut self.tmpfile, self.mmap_pos).with_context(|| {
+            format!(
+                "Failed to finalize temp file at {}",
+                self.tmpfile.path().display()
+            )
+        })?;
         let sri = self.builder.result();
         let cpath = path::content_path(&self.cache, &sri);
         DirBuilder::new()
@@ -115,8 +120,7 @@ impl Writer {
 impl Write for Writer {
     fn write(&mut self, buf: &[u8]) -> std::io::Result<usize> {
         self.builder.input(buf);
-        if let Some(mmap) = &mut self.mmap {
-            mmap.copy_from_slice(buf);
+        if mmap_store(&mut self.mmap, &mut self.tmpfile, &mut self.mmap_pos, buf)? {
             Ok(buf.len())
         } else {
             self.tmpfile.write(buf)
@@ -143,6 +147,8 @@ struct Inner {
     builder: IntegrityOpts,
     tmpfile: NamedTempFile,
     mmap: Option<MmapMut>,
+    // Number of bytes stored through `mmap` so far.
+    mmap_pos: usize,
     buf: Vec<u8>,
     last_op: Option<Operation>,
 }
@@ -177,6 +183,7 @@ impl AsyncWriter {
             cache: cache_path,
             builder: IntegrityOpts::new().algorithm(algo),
             mmap,
+            mmap_pos: 0,
             tmpfile,
             buf: vec![],
             last_op: None,
@@ -196,16 +203,21 @@ impl AsyncWriter {
                         None => return Poll::Ready(None),
                         Some(inner) => {
                             let (s, r) = futures::channel::oneshot::channel();
-                            let tmpfile = inner.tmpfile;
+                            let mut tmpfile = inner.tmpfile;
+                            let mut mmap = inner.mmap;
+                            let mmap_pos = inner.mmap_pos;
                             let sri = inner.builder.result();
                             let cpath = path::content_path(&inner.cache, &sri);
 
                             // Start the operation asynchronously.
-                            *state = State::Busy(crate::async_lib::spawn_blocking(|| {
-                                let res = std::fs::DirBuilder::new()
-                                    .recursive(true)
-                                    // Safe unwrap. cpath always has multiple segments
-                                    .create(cpath.parent().unwrap())
+                            *state = State::Busy(crate::async_lib::spawn_blocking(move || {
+                                let res = finish_mmap(&mut mmap, &mut tmpfile, mmap_pos)
+                                    .and_then(|_| {
+                                        std::fs::DirBuilder::new()
+                                            .recursive(true)
+                                            // Safe unwrap. cpath always has multiple segments
+                                            .create(cpath.parent().unwrap())
+                                    })
                                     .with_context(|| {
                                         format!(
                                             "building directory {} failed",
@@ -307,15 +319,18 @@ impl AsyncWrite for AsyncWriter {
                         // Start the operation asynchronously.
                         *state = State::Busy(crate::async_lib::spawn_blocking(|| {
                             inner.builder.input(&inner.buf);
-                            if let Some(mmap) = &mut inner.mmap {
-                                mmap.copy_from_slice(&inner.buf);
-                                inner.last_op = Some(Operation::Write(Ok(inner.buf.len())));
-                                State::Idle(Some(inner))
-                            } else {
-                                let res = inner.tmpfile.write(&inner.buf);
-                                inner.last_op = Some(Operation::Write(res));
-                                State::Idle(Some(inner))
-                            }
+                            let res = match mmap_store(
+                                &mut inner.mmap,
+                                &mut inner.tmpfile,
+                                &mut inner.mmap_pos,
+                                &inner.buf,
+                            ) {
+                                Ok(true) => Ok(inner.buf.len()),
+                                Ok(false) => inner.tmpfile.write(&inner.buf),
+                                Err(e) => Err(e),
+                            };
+                            inner.last_op = Some(Operation::Write(res));
+                            State::Idle(Some(inner))
                         }));
                     }
                 }
@@ -425,7 +440,8 @@ impl AsyncWriter {
 
 #[cfg(feature = "mmap")]
 fn make_mmap(tmpfile: &mut NamedTempFile, size: Option<usize>) -> Result<Option<MmapMut>> {
-    if let Some(size @ 0..=MAX_MMAP_SIZE) = size {
+    // A zero-length file can be neither allocated nor mapped.
+    if let Some(size @ 1..=MAX_MMAP_SIZE) = size {
         allocate_file(tmpfile.as_file(), size).with_context(|| {
             format!(
                 "Failed to configure file length for temp file at {}",
@@ -467,6 +483,67 @@ fn allocate_file(file: &std::fs::File, size: usize) -> std::io::Result<()> {
 #[cfg(not(feature = "mmap"))]
 fn make_mmap(_: &mut NamedTempFile, _: Option<usize>) -> Result<Option<MmapMut>> {
     Ok(None)
+}
+
+/// Stores `buf` through the mapping at offset `*pos` when it fits and reports `true`.
+/// When there is no mapping, or more data arrives than the declared size, reports `false`:
+/// the caller then writes `buf` to the file, which has been cut back to the `*pos` bytes
+/// stored so far and positioned right after them.
+#[cfg(feature = "mmap")]
+fn mmap_store(
+    mmap: &mut Option<MmapMut>,
+    tmpfile: &mut NamedTempFile,
+    pos: &mut usize,
+    buf: &[u8],
+) -> std::io::Result<bool> {
+    if let Some(map) = mmap.as_mut() {
+        let end = *pos + buf.len();
+        if end <= map.len() {
+            map[*pos..end].copy_from_slice(buf);
+            *pos = end;
+            return Ok(true);
+        }
+    }
+    if let Some(map) = mmap.take() {
+        drop(map);
+        let file = tmpfile.as_file_mut();
+        file.set_len(*pos as u64)?;
+        file.seek(std::io::SeekFrom::Start(*pos as u64))?;
+    }
+    Ok(false)
+}
+
+#[cfg(not(feature = "mmap"))]
+fn mmap_store(
+    _: &mut Option<MmapMut>,
+    _: &mut NamedTempFile,
+    _: &mut usize,
+    _: &[u8],
+) -> std::io::Result<bool> {
+    Ok(false)
+}
+
+/// Drops the mapping before the temp file is published; if fewer bytes than the declared
+/// size were written the file is cut back to what was actually written.
+#[cfg(feature = "mmap")]
+fn finish_mmap(
+    mmap: &mut Option<MmapMut>,
+    tmpfile: &mut NamedTempFile,
+    pos: usize,
+) -> std::io::Result<()> {
+    if let Some(map) = mmap.take() {
+        let len = map.len();
+        drop(map);
+        if pos < len {
+            tmpfile.as_file_mut().set_len(pos as u64)?;
+        }
+    }
+    Ok(())
+}
+
+#[cfg(not(feature = "mmap"))]
+fn finish_mmap(_: &mut Option<MmapMut>, _: &mut NamedTempFile, _: usize) -> std::io::Result<()> {
+    Ok(())
 }
 
 #[cfg(test)]
